@@ -226,7 +226,7 @@ def run(ctx):
     # engine B sample (deterministic peers drawn from the table)
     rn = {c: gens.rated_names(c) for c in CATS}
     sub = []
-    k = 6 if ctx.quick else 60
+    k = 9 if ctx.quick else 60
     for i in range(k):
         lists = {}
         for c in CATS:
@@ -239,9 +239,15 @@ def run(ctx):
             lists['enc'] = lists['enc'] + ['chacha20-poly1305@openssh.com', 'aes128-cbc', 'aes256-cbc', '3des-cbc']
             lists['mac'] = lists['mac'] + ['hmac-sha2-256-etm@openssh.com', 'hmac-sha2-512-etm@openssh.com', 'umac-128-etm@openssh.com']
         lists['key'] = lists['key'] + ['ssh-rsa', 'ssh-ed25519']
+        if i % 3 == 1:
+            # names the table does not know, one of them in two categories: whatever is assembled from them must come out in one order
+            lists['enc'] = lists['enc'] + ['aead-zz-256@example.com', 'zz-cipher-1']
+            lists['mac'] = lists['mac'] + ['aead-zz-256@example.com', 'zz-mac-1@example.org']
+            lists['kex'] = lists['kex'] + ['zz-kex-a', 'zz-kex-b@example.net']
+            lists['key'] = lists['key'] + ['zz-hostkey']
         argv = [['-n'], ['-n', '-j'], ['-n', '-v'], ['-b'], ['-jj']][i % 5]
-        sub.append({'kind': 'subproc', 'lists': {c: list(dict.fromkeys(l)) for c, l in lists.items()}, 'argv': argv, 'hashseeds': [0, 1, 2, 12345]})
+        sub.append({'kind': 'subproc', 'lists': {c: list(dict.fromkeys(l)) for c, l in lists.items()}, 'argv': argv, 'hashseeds': [0, 1, 2, 3, 4, 12345]})
     ctx.map(sub, chunk=1)
-    ctx.note(option_sets_per_peer=len(TEXT_SETS) + len(JSON_SETS), traces_validated_against_impl=len(sub), subprocess_runs=len(sub) * 4)
-    return ctx.finish('exploration', 'Hypothesis peers covering every severity mix (fail / warn / clean / unknown / gss names, both roles), each audited under all 24 text option sets (-b, -v, -n, -l) and 12 JSON option sets (-j/-jj, -v, -l); engine-B sample: the real process under PYTHONHASHSEED 0/1/2/12345 with probes answered; non-trivial = peer with >= 2 severities',
+    ctx.note(option_sets_per_peer=len(TEXT_SETS) + len(JSON_SETS), traces_validated_against_impl=len(sub), subprocess_runs=len(sub) * 6)
+    return ctx.finish('exploration', 'Hypothesis peers covering every severity mix (fail / warn / clean / unknown / gss names, both roles), each audited under all 24 text option sets (-b, -v, -n, -l) and 12 JSON option sets (-j/-jj, -v, -l); engine-B sample: the real process under PYTHONHASHSEED 0/1/2/3/4/12345 with probes answered (peers with several Terrapin-class algorithms, several unknown names, one unknown name in two categories); non-trivial = peer with >= 2 severities',
                       assumptions=['recommendation section is sorted on the coloured strings, so colour/no-colour are compared as multisets of lines', 'engine A = engine B byte for byte on the sampled cases (checked, disagreement is a harness error)'])
